@@ -82,6 +82,7 @@ type CheckCtx struct {
 	Extra     []*Obligation // obligations decided by non-SMT engines (status already set)
 	Bounded   []BoundedCheck
 	Tables    []string
+	OrderByGrammar map[string]bool // C15: kinds whose printer order is exercised by discharged-or-failing conserve obligations of this run
 	ExtraFuncs []string // functions under contract that are verified by an engine other than E-VC (generated machines)
 	Assume    map[string]bool
 	Trusted   map[string]bool
